@@ -218,9 +218,18 @@ class Validator:
             d = rootdict
             key = d["__type__"]
         elif isinstance(path[-1], int):
-            # the error is on an object in a list
             d = dictutils.findkey(rootdict, *path)
-            key = d["__type__"]
+            if isinstance(d, dict):
+                # the error is on an object in a list
+                key = d["__type__"]
+            else:
+                # the error is on an item of a list-valued keyword e.g. SIZE 10.5 20
+                # or the second PROCESSING - report the keyword itself
+                key_path = list(path)
+                while isinstance(key_path[-1], int):
+                    key_path.pop()
+                key = key_path[-1]
+                d = dictutils.findkey(rootdict, *key_path[:-1])
         else:
             key = path[-1]
             d = dictutils.findkey(rootdict, *path[:-1])
@@ -246,6 +255,10 @@ class Validator:
                 pd = d["__position__"]
             else:
                 pd = d["__position__"][key]
+                if isinstance(pd, list):
+                    # a repeated keyword has one position for each occurrence
+                    idx = path[-1] if isinstance(path[-1], int) else 0
+                    pd = pd[idx] if idx < len(pd) else pd[0]
 
             error_dict["line"] = pd.get("line")
             error_dict["column"] = pd.get("column")
